@@ -111,3 +111,38 @@ def close(a, b, rtol=1e-9, atol=1e-9):
     if math.isinf(a) or math.isinf(b):
         return a == b
     return abs(a - b) <= atol + rtol * max(abs(a), abs(b))
+
+
+def exact_params(topo, seed=0):
+    """numeric parameter values for which every constant the code can fold is exact in binary floating
+    point (all divisors are powers of two; turn rates of a node sum to 1), so that float constant
+    folding coincides with real arithmetic."""
+    rng = random.Random(seed)
+    P = {}
+    for k, l in enumerate(topo.links):
+        P[f"lam_{l.name}"] = float(rng.choice([1, 2, 4]))
+        P[f"L_{l.name}"] = rng.choice([0.5, 1.0, 2.0])
+        P[f"rhomax_{l.name}"] = 160.0
+        P[f"rhocrit_{l.name}"] = 32.0
+        P[f"vfree_{l.name}"] = 128.0
+        P[f"a_{l.name}"] = (2.0, 0.5)[(k + seed) % 2]
+        if l.is_vsl:
+            P[f"alpha_{l.name}"] = 0.125
+    for n in topo.nodes:
+        outs = topo.out_links(n)
+        rem = 1.0
+        for j, l in enumerate(outs):
+            if j == len(outs) - 1:
+                P[f"beta_{l.name}"] = rem
+            else:
+                P[f"beta_{l.name}"] = rem / 2
+                rem /= 2
+    for n, (o, k) in topo.origins.items():
+        if k in T_.RAMPS:
+            P[f"C_{o}"] = float(rng.choice([1024, 2048, 1536]))
+    P.update({"T": 1 / 256, "tau": 1 / 128, "eta": 64.0, "kappa": 32.0})
+    if topo.delta:
+        P["delta"] = 1 / 64
+    if topo.phi:
+        P["phi"] = 1.5
+    return P
